@@ -72,8 +72,8 @@ ANCHORS = [
 
 def plan(tier):
     if tier == "quick":
-        return {"shards": 16, "schemas": 260, "values": 10, "timeout": 300}
-    return {"shards": 16, "schemas": 26000, "values": 10, "timeout": 3000}
+        return {"shards": 16, "schemas": 260, "values": 10, "timeout": 300, "mirror": True}
+    return {"shards": 16, "schemas": 26000, "values": 10, "timeout": 3000, "mirror": True}
 
 
 def js_verdict(schema, value):
@@ -129,10 +129,10 @@ def judge(ctx, sut, element, schema, root, value, route, tag):
             "escape", {"schema": root, "value": value, "route": route},
             f"{outcome}: {exc!r}",
         )
-        return
+        return outcome
     if len(allowed) == 2:
         ctx.count("ambiguous")
-        return
+        return got
     want = next(iter(allowed))
     ctx.count("decided.true_by_model" if want else "decided.false_by_model")
     if CUSTOM_FORMATS and isinstance(value, str) and '"my-format"' in json.dumps(schema):
@@ -168,7 +168,7 @@ def judge(ctx, sut, element, schema, root, value, route, tag):
                     "oracle dispute: jsonschema disagrees with model and statham on "
                     + json.dumps({"schema": schema, "value": value}, default=repr)[:600]
                 )
-        return
+        return got
     # mismatch: ask the second opinion unless a deviation makes it inapplicable
     second = None
     text = json.dumps(root, default=repr)
@@ -181,7 +181,7 @@ def judge(ctx, sut, element, schema, root, value, route, tag):
             "oracle dispute: jsonschema sides with statham against the model on "
             + json.dumps({"schema": schema, "value": value}, default=repr)[:600]
         )
-        return
+        return got
     finding = classify(schema, root, value, got)
     ctx.witness(
         "accepts_invalid" if got else "rejects_valid",
@@ -190,6 +190,7 @@ def judge(ctx, sut, element, schema, root, value, route, tag):
         f"jsonschema={second}",
         finding=finding,
     )
+    return got
 
 
 def classify(schema, root, value, got):
@@ -211,8 +212,9 @@ def classify(schema, root, value, got):
     return None
 
 
-def one_schema(ctx, sut, idx):
-    rng = ctx.rng
+def make_case(ctx, idx):
+    """Generate case #idx of this stream (generation never depends on what the library did)."""
+    rng = ctx.gen_rng
     route = "file" if idx % 2 else "direct"
     if route == "file":
         if rng.random() < 0.6:
@@ -227,10 +229,16 @@ def one_schema(ctx, sut, idx):
     try:
         if not refmodel.metaschema_valid(doc):
             ctx.count("generator.metaschema_invalid_skipped")
-            return
+            return None
     except Exception:  # pylint: disable=broad-except
         ctx.count("generator.metaschema_error_skipped")
-        return
+        return None
+    values = gv.batch_for_schema(rng, doc, doc, count=ctx.params["values"])
+    return {"doc": doc, "route": route, "tag": tag, "values": values}
+
+
+def one_schema(ctx, sut, idx, case):
+    doc, route, tag, values = copy.deepcopy(case["doc"]), case["route"], case["tag"], case["values"]
     ctx.count("schemas")
     ctx.count("template." + tag)
     for key in gs.keywords_of(doc):
@@ -238,7 +246,8 @@ def one_schema(ctx, sut, idx):
     pristine = copy.deepcopy(doc)
     try:
         if route == "file":
-            elements = sut.parse_file(copy.deepcopy(doc), ctx.tmpdir(), f"c01_{ctx.shard}_{idx}.json")
+            elements = sut.parse_file(copy.deepcopy(doc), ctx.tmpdir(),
+                                      f"c01_{ctx.shard}_{idx}_{'m' if ctx.mirror else 'f'}.json")
             element = elements[0]
         else:
             element = sut.parse_direct(doc)
@@ -247,12 +256,16 @@ def one_schema(ctx, sut, idx):
             "parse_escape", {"schema": pristine, "route": route},
             f"parse of a supported, metaschema-valid schema raised {type(exc).__name__}: {exc!r}"[:600],
         )
+        ctx.digest(idx, "parse:" + type(exc).__name__)
         return
     if canon(doc) != canon(pristine):
         ctx.count("diagnostic.caller_schema_mutated")
-    values = gv.batch_for_schema(rng, pristine, pristine, count=ctx.params["values"])
+    outcomes = []
     for value in values:
-        judge(ctx, sut, element, pristine, pristine, value, route, tag)
+        outcomes.append(judge(ctx, sut, element, pristine, pristine, copy.deepcopy(value), route, tag))
+    if '"format"' not in json.dumps(pristine):
+        # (verdicts under `format` legitimately depend on the registration history of the process)
+        ctx.digest(idx, outcomes)
     ctx.sample({"schema": pristine, "values": values[:3], "route": route}, every=40)
     # order-of-parse effects: a second parse of an equal document must agree
     if idx % 5 == 0:
@@ -261,8 +274,8 @@ def one_schema(ctx, sut, idx):
         except BaseException:  # pylint: disable=broad-except
             return
         for value in values[:4]:
-            first = sut.call(element, value)[0]
-            second = sut.call(again, value)[0]
+            first = sut.call(element, copy.deepcopy(value))[0]
+            second = sut.call(again, copy.deepcopy(value))[0]
             ctx.count("reparse.compared")
             if sut.accepted(first) != sut.accepted(second):
                 ctx.witness(
@@ -278,18 +291,20 @@ def run_shard(ctx):
     from statham.schema.validation.format import format_checker  # pylint: disable=import-outside-toplevel
 
     total = ctx.params["schemas"]
-    for idx in range(total):
-        if idx == total // 3:
+    cases = [make_case(ctx, idx) for idx in range(total)]
+    for position, (idx, case) in enumerate(ctx.ordered(cases)):
+        if position == total // 3:
             # "only registered string formats are checked": from here on `my-format` IS registered (strings
             # validated under that name earlier in this process were accepted with a warning)
             format_checker.register("my-format")(even_length)
             CUSTOM_FORMATS["my-format"] = even_length
             ctx.count("format.registered_mid_run")
-        if idx == (2 * total) // 3:
+        if position == (2 * total) // 3:
             format_checker.register("my-format")(lambda value: not even_length(value))
             CUSTOM_FORMATS["my-format"] = lambda value: not even_length(value)
             ctx.count("format.reregistered_mid_run")
-        one_schema(ctx, sut, idx)
+        if case is not None:
+            one_schema(ctx, sut, idx, case)
 
 
 def replay(case, ctx):
